@@ -26,7 +26,8 @@ pub fn build(case: &Case) -> (Vec<(String, u16, Shape)>, Vec<Rule>) {
     for (i, s) in case.shapes.iter().enumerate() {
         // long lists (count thresholds): generated ids, ranks distinct (pattern 0), tied (1) or ascending
         let (id, rank) = if case.shapes.len() > IDS.len() {
-            (format!("n{i:03}"), match case.rank_pattern { 0 => 1000 - i as u16, 1 => 5, _ => 1 + i as u16 })
+            // ids mixing numeric and non-numeric strings ("7", "49", "5b" ...): ids are compared as strings
+            (if i % 3 == 0 { format!("{}", i + 3) } else if i % 3 == 1 { format!("{}b", i + 3) } else { format!("n{i:03}") }, match case.rank_pattern { 0 => 1000 - i as u16, 1 => 5, _ => 1 + i as u16 })
         } else {
             (IDS[i].to_string(), rank_of(case.rank_pattern, i))
         };
